@@ -24,7 +24,7 @@ static void stepUpCase(double x, const char* tag, vh::Rng* g) {
     vh::O("stepUp").d(s).d(ds).d(d2).d(d3).d(stepDown(x)).d(dstepDown(x)).d(d2stepDown(x)).d(d3stepDown(x)).emit();
     vh::D(std::string("stepUp.") + tag);
     std::string key = std::string("stepUp.") + tag;
-    vh::P("step_range", key + ".range", std::max(-s, s - 1.0), 0.0);
+    vh::P("step_range", key + ".range", std::max(-s, s - 1.0), 2e-14);   // exact in the model (theorem stepUp_range); rounding of 7 flops with terms up to 15
     vh::P("step_monotone_deriv", key + ".dnonneg", -ds, 0.0);
     vh::P("stepDown_mirror", key + ".mirror", std::fabs(stepDown(x) + s - 1.0), 4e-16);
     if (x == 0.0 || x == 1.0) {
@@ -33,7 +33,7 @@ static void stepUpCase(double x, const char* tag, vh::Rng* g) {
     if (g) {
         // monotone: a second point above x
         double x2 = x + (1.0 - x) * g->unit();
-        vh::P("step_monotone", key + ".monotone", s - stepUp(x2), 1e-15);
+        vh::P("step_monotone", key + ".monotone", s - stepUp(x2), 2e-14);
         // derivatives against central differences (h^2 f'''/6 <= 1e-8*360/6)
         const double h = 1e-4;
         if (x >= h && x <= 1 - h) {
@@ -59,7 +59,7 @@ static void stepAnyCase(double y0, double yr, double x0, double x1, double u, co
     double ys = std::fabs(y0) + std::fabs(yr);
     // between the end values
     double lo = std::min(y0, y0 + yr), hi = std::max(y0, y0 + yr);
-    vh::P("stepAny_range", key + ".range", std::max(lo - y, y - hi) / ys, 4e-16);
+    vh::P("stepAny_range", key + ".range", std::max(lo - y, y - hi) / ys, 2e-14);
     if (u == 0) vh::P("stepAny_ends", key + ".end0", std::fabs(y - y0) / ys + std::fabs(dy) + std::fabs(d2y), 0.0);
     if (u == 1) vh::P("stepAny_ends", key + ".end1",
                       std::fabs(y - (y0 + yr)) / ys + std::fabs(dy * (x1 - x0)) / ys + std::fabs(d2y * (x1 - x0) * (x1 - x0)) / ys, 1e-13);
@@ -84,7 +84,7 @@ static void fstepRecord(double y0, double y1, double x0, double x1, double x, do
     double ys = std::max(std::fabs(y0) + std::fabs(y1), 1e-300), xr = x1 - x0;
     if (zone < 0) vh::P("step_outside", key + ".before", std::fabs(v - y0) + std::fabs(d1) + std::fabs(d2) + std::fabs(d3), 0.0);
     if (zone > 0) vh::P("step_outside", key + ".after", std::fabs(v - y1) + std::fabs(d1) + std::fabs(d2) + std::fabs(d3), 0.0);
-    vh::P("step_between", key + ".between", std::max(std::min(y0, y1) - v, v - std::max(y0, y1)) / ys, 4e-16);
+    vh::P("step_between", key + ".between", std::max(std::min(y0, y1) - v, v - std::max(y0, y1)) / ys, 2e-14);
     // monotone in the direction of (y1-y0)*(x1-x0):  d1 * sign >= 0
     vh::P("step_monotone", key + ".monotone", -d1 * (y1 - y0) * xr, 0.0);
     if (zone == 0 && f) {
